@@ -374,6 +374,29 @@ func c10(c *core.Ctx) {
 			addrOK = false
 		}
 		c.Check("LoadTopCandidates:address=element.address", "value-provenance", addrOK, call.Pos(), "the miner address of the deputy is the address of the ranked element")
+		// the account state LoadTopCandidates uses (node id; votes, see D8) is the state of the branch the block is built on: accounts are
+		// taken from Manager.GetAccount, never from GetCanonicalAccount (the node's stable state: nodes with different stable heights would
+		// write different deputy lists into the same snapshot block)
+		gaM := c.Method("chain/account.Manager", "GetAccount")
+		okAcc := true
+		nAcc := 0
+		for _, x := range a {
+			for v := range core.Slice(x) {
+				ci, isCall := v.(ssa.CallInstruction)
+				if !isCall {
+					continue
+				}
+				o := core.CalleeObj(ci)
+				if o == nil || o.Pkg() == nil || !strings.HasSuffix(o.Pkg().Path(), "/chain/account") || recvNamed(o) == nil || recvNamed(o).Name() != "Manager" {
+					continue
+				}
+				nAcc++
+				if o != gaM {
+					okAcc = false
+				}
+			}
+		}
+		c.Check("LoadTopCandidates:accounts-from-Manager.GetAccount", "value-provenance", okAcc && nAcc > 0, call.Pos(), "every account-manager read that feeds NewDeputyNode is Manager.GetAccount (%d reads)", nAcc)
 		// votes: Total of the same element, and no read of account state in between
 		totalF := c.FieldVar("store.Candidate", "Total")
 		getTotal := c.Method("store.Candidate", "GetTotal")
@@ -1295,6 +1318,9 @@ func c10(c *core.Ctx) {
 		}
 		c.Floor("updateTop/rank-inputs", n+m, 3)
 	})
+
+	c.Clause("C10.9", "the persisted candidate list follows every change: what blockCommit puts into the candidate cache is flushed to context.data on every successful path (or skipped only under a dirty flag every cache writer raises) — a restarted node ranks from that file (clause of C08.3, evaluated here as well)")
+	c.Run("candidates-flushed", func() { c08CandidatesFlushed(c) })
 
 	c.NotDecidedf("that the incremental updateTop (four branches on list fullness and movement of the minimum) yields the same list as a full sort of all registered candidates over a history of blocks — arithmetic on runtime lists, not decided")
 	c.NotDecidedf("that the list after a restart equals the list of a node that never stopped (the persisted candidate file versus the in-memory index as values); only the structural repopulation of the index is decided")
